@@ -1,12 +1,9 @@
 """C57 - Log observers receive every event; filters honour namespace hierarchy."""
 from __future__ import annotations
 
-import ast
-
-from sa.astx import call_name, dotted, src, walk_local
-from sa.effects import class_accesses
 from sa.selftest import Mutant, Silent
-from sa.props._lib_k import LEVELS, Interp, Nonterminating, freeze, protection
+from sa.source import AnalysisError
+from sa.props._lib_k import Interp, Nonterminating, freeze
 
 PROPERTY = "C57"
 OBS = "logger/_observer.py"
@@ -35,145 +32,297 @@ QF = "twisted.logger._filter."
 QB = "twisted.logger._buffer.LimitedHistoryLogObserver."
 
 
-def _is_self_attr(n, name):
-    return isinstance(n, ast.Attribute) and n.attr == name and isinstance(n.value, ast.Name) and n.value.id == "self"
+# ---- models of the collaborators (python objects driven by the interpreted code) -----------------------------------------
+class _Boom(Exception):
+    """Raised by the failing observers: caught by `except Exception` / BaseException only."""
 
 
-def _no_exc(a, b, l):
-    return l != "exc"
+class _Rec:
+    """A log observer model: records (its name, the event object) in a shared journal, optionally raises."""
+
+    def __init__(self, name, journal, raises=False):
+        self.name, self.journal, self.raises = name, journal, raises
+
+    def __call__(self, event):
+        self.journal.append((self, event))
+        if self.raises:
+            raise _Boom(self.name)
+
+    def __repr__(self):
+        return f"<{self.name}>"
+
+
+class _FailureModel:
+    def __init__(self):
+        import sys
+        self.value = sys.exc_info()[1]
+
+
+class _LoggerModel:
+    """twisted.logger.Logger as far as LogPublisher uses it: failure(format, failure, **kw) emits one event to its observer."""
+
+    def __init__(self, namespace=None, source=None, observer=None):
+        self.observer = observer
+
+    def failure(self, format, failure=None, level=None, **kwargs):
+        event = dict(kwargs)
+        event.update(log_format=format, log_failure=failure, log_level="critical")
+        self.observer(event)
+
+    def __repr__(self):
+        return "<Logger>"
+
+
+def _publisher_interp(ctx):
+    mod = ctx.mod(OBS)
+    it = Interp({}, budget=4000000)
+    it.load(mod)
+    it.globals.update({"Failure": _FailureModel, "Logger": _LoggerModel, "implementer": lambda *a: (lambda x: x)})
+    ctx.need("LogPublisher" in it.globals, "class LogPublisher")
+    for meth in ("__call__", "addObserver", "removeObserver"):
+        ctx.func(OBS, f"LogPublisher.{meth}")
+    return it
 
 
 def check_publisher(ctx):
-    mod = ctx.mod(OBS)
-    cls = ctx.cls(OBS, "LogPublisher")
-    f = ctx.func(OBS, "LogPublisher.__call__")
-    g = ctx.cfg(f)
-    q = QO + "__call__"
-    ev = f.args.args[1].arg
-    loops = [n for n in walk_local(f) if isinstance(n, ast.For)]
-    fan = [lp for lp in loops if _is_self_attr(lp.iter, "_observers")]
-    ctx.check(len(fan) == 1, "publisher/forward-iteration", q,
-              "the fan-out loop does not iterate self._observers itself, front to back (registration order)"
-              if not fan else "more than one fan-out loop")
-    if len(fan) != 1:
-        # a loop over a transformed sequence: name it
-        for lp in loops:
-            if "_observers" in src(lp.iter):
-                ctx.violation("publisher/forward-iteration", ctx.construct(q, lp.iter), "observers are visited through a transformed sequence, not in registration order")
-        return
-    lp = fan[0]
-    ctx.need(isinstance(lp.target, ast.Name), "fan-out loop variable")
-    ov = lp.target.id
-    head = g.ids_of(lp)[0]
-    calls = [c for c in ast.walk(lp) if isinstance(c, ast.Call) and isinstance(c.func, ast.Name) and c.func.id == ov]
-    ctx.check(len(calls) == 1, "publisher/one-delivery-per-observer", q, f"{len(calls)} observer(...) call sites in the fan-out loop (must be exactly one)")
-    for c in calls:
-        k = ctx.construct(q, c)
-        ctx.check(len(c.args) == 1 and src(c.args[0]) == ev and not c.keywords, "publisher/delivers-the-event", k, "the observer is not called with the event itself")
-        lv = protection(c, f)
-        ctx.check(LEVELS[lv] >= 1, "publisher/observer-failure-contained", k,
-                  "an exception raised by one observer leaves the fan-out loop: the remaining observers never see the event",
-                  detail=f"handler level {lv}")
-        cid = g.ids_of(c)
-        # each iteration makes the call: from the iteration start to the next head without the call
-        starts = [d for d, l in g.succ[head] if l == "iter"]
-        p = g.path([s for s in starts if s not in cid], [head, g.exit], avoid=cid, edge_ok=_no_exc)
-        ctx.check(p is None, "publisher/one-delivery-per-observer", k + " | every iteration", "an observer can be skipped", witness=g.describe(p))
-        p = g.path(cid, cid, avoid=[head], strict=True)
-        ctx.check(p is None, "publisher/one-delivery-per-observer", k + " | not repeated", "an observer can receive the event twice", witness=g.describe(p))
-    # the loop cannot be left other than by exhaustion (explicit raise / return / break inside it)
-    body_nodes = [n.id for n in g.nodes if n.ast is not None and n.kind in ("stmt", "test", "handler") and any(n.ast is x for x in ast.walk(lp)) and g.reachable(n.id)]
-    done = {d for d, l in g.succ[head] if l == "done"}
-    p = g.path(body_nodes, [g.exit, g.raise_exit] + list(done), avoid=[head], edge_ok=_no_exc)
-    ctx.check(p is None, "publisher/loop-runs-to-completion", q + " | fan-out loop", "the fan-out loop can be left before every observer was served",
-              witness=g.describe(p))
-    # handlers around the call: record the failure
-    tries = [t for t in ast.walk(lp) if isinstance(t, ast.Try) and calls and any(x is calls[0] for b in t.body for x in ast.walk(b))]
-    rec_list = None
-    for t in tries:
-        for h in t.handlers:
-            apps = [c for b in h.body for c in ast.walk(b) if isinstance(c, ast.Call) and isinstance(c.func, ast.Attribute) and c.func.attr == "append"]
-            ok = False
-            for a in apps:
-                if len(a.args) == 1 and isinstance(a.args[0], ast.Tuple) and len(a.args[0].elts) == 2 and src(a.args[0].elts[0]) == ov \
-                        and isinstance(a.args[0].elts[1], ast.Call) and call_name(a.args[0].elts[1]) == "Failure" and not a.args[0].elts[1].args:
-                    ok = True
-                    rec_list = src(a.func.value)
-            ctx.check(ok, "publisher/failure-recorded", ctx.construct(q, h.type if h.type is not None else "except:"),
-                      "a failing observer is swallowed without (observer, Failure()) being recorded for the report")
-    # report loop: after the fan-out loop, over the recorded list
-    reps = [l2 for l2 in loops if l2 is not lp and rec_list is not None and src(l2.iter) == rec_list]
-    ctx.check(len(reps) == 1, "publisher/failures-reported-after-loop", q + " | report loop",
-              "the recorded failures are not reported by one loop over the list of broken observers")
-    if len(reps) == 1:
-        rp = reps[0]
-        ctx.check(not any(x is rp for x in ast.walk(lp)), "publisher/failures-reported-after-loop", ctx.construct(q, rp.iter) + " | placement",
-                  "failures are reported inside the fan-out loop (error events overtake the event being delivered)")
-        rhead = g.ids_of(rp)[0]
-        p = g.path([g.entry], [rhead], avoid=[head])
-        ctx.check(p is None, "publisher/failures-reported-after-loop", q + " | report loop after fan-out", "the report loop can run without the fan-out", witness=g.describe(p))
-        ctx.need(isinstance(rp.target, ast.Tuple) and len(rp.target.elts) == 2, "report loop unpacks (observer, failure)")
-        bo, fl = src(rp.target.elts[0]), src(rp.target.elts[1])
-        mk = [c for c in ast.walk(rp) if isinstance(c, ast.Call) and call_name(c) == "self._errorLoggerForObserver"]
-        ctx.check(len(mk) == 1 and len(mk[0].args) == 1 and src(mk[0].args[0]) == bo, "publisher/report-excludes-broken-observer", q + " | _errorLoggerForObserver(...)",
-                  "the error logger is not built for the broken observer of this record")
-        fc = [c for c in ast.walk(rp) if isinstance(c, ast.Call) and isinstance(c.func, ast.Attribute) and c.func.attr == "failure"]
-        okf = len(fc) == 1 and {k.arg: src(k.value) for k in fc[0].keywords}.get("failure") == fl
-        ctx.check(okf, "publisher/failure-reported", q + " | errorLogger.failure(...)", "the recorded Failure is not what is reported")
-        if fc:
-            fid = g.ids_of(fc[0])
-            st = [d for d, l in g.succ[rhead] if l == "iter"]
-            p = g.path([s for s in st if s not in fid], [rhead, g.exit], avoid=fid, edge_ok=_no_exc)
-            ctx.check(p is None, "publisher/failure-reported", q + " | every record", "a recorded failure can go unreported", witness=g.describe(p))
-    # fan-out not after an early return
-    ctx.check(g.must_pass([g.entry], [head], exc=False) is None, "publisher/loop-runs-to-completion", q + " | reached",
-              "__call__ can return without fanning the event out", witness=g.describe(g.must_pass([g.entry], [head], exc=False)))
+    """LogPublisher interpreted over every history (<= 4 operations) of addObserver / removeObserver, with an event
+    published in every reached state; the journal of deliveries is compared with the specification."""
+    import copy
+    it = _publisher_interp(ctx)
+    q = "twisted.logger._observer.LogPublisher"
+    disabled = it.globals.get("OBSERVER_DISABLED")
+    journal = []
+    obs = {"A": _Rec("A", journal), "B": _Rec("B!", journal, True), "C": _Rec("C", journal), "D": _Rec("D!", journal, True)}
 
-    # _errorLoggerForObserver: all observers but (identity) the broken one, in order
-    e = ctx.func(OBS, "LogPublisher._errorLoggerForObserver")
-    qe = QO + "_errorLoggerForObserver"
-    par = e.args.args[1].arg
-    gens = [n for n in ast.walk(e) if isinstance(n, (ast.GeneratorExp, ast.ListComp))]
-    ok = False
-    for gn in gens:
-        if len(gn.generators) == 1 and _is_self_attr(gn.generators[0].iter, "_observers") and isinstance(gn.generators[0].target, ast.Name):
-            v = gn.generators[0].target.id
-            conds = gn.generators[0].ifs
-            if src(gn.elt) == v and len(conds) == 1 and isinstance(conds[0], ast.Compare) and len(conds[0].ops) == 1 and isinstance(conds[0].ops[0], ast.IsNot) \
-                    and {src(conds[0].left), src(conds[0].comparators[0])} == {v, par}:
-                ok = True
-    ctx.check(ok, "publisher/report-excludes-broken-observer", qe,
-              "the error publisher is not exactly 'every registered observer that is not (identity) the broken one, in order': the failure is "
-              "reported to the broken observer itself or withheld from healthy ones")
-    pubs = [c for c in ast.walk(e) if isinstance(c, ast.Call) and call_name(c) == "LogPublisher"]
-    ctx.check(len(pubs) == 1 and len(pubs[0].args) == 1 and isinstance(pubs[0].args[0], ast.Starred), "publisher/report-excludes-broken-observer", qe + " | LogPublisher(*...)",
-              "the filtered observers are not handed to a fresh LogPublisher")
-    rets = [r for r in ast.walk(e) if isinstance(r, ast.Return)]
-    ctx.check(len(rets) == 1 and isinstance(rets[0].value, ast.Call) and call_name(rets[0].value) == "Logger"
-              and any(k.arg == "observer" for k in rets[0].value.keywords), "publisher/report-excludes-broken-observer", qe + " | return Logger(observer=...)",
-              "the error logger does not publish to the filtered publisher")
+    def spec(listed, tag, out):
+        """every observer once, in order, the broken ones reported afterwards to all the others"""
+        broken = []
+        for o in listed:
+            out.append((o.name, tag))
+            if o.raises:
+                broken.append(o)
+        for b in broken:
+            spec([x for x in listed if x is not b], ("failure of", b.name), out)
 
-    # who may write _observers, and how
-    acc = class_accesses(mod, cls, {"_observers"}, receivers={"self"})
-    allowed = {("LogPublisher.__init__", "assign"), ("LogPublisher.addObserver", "append"), ("LogPublisher.removeObserver", "remove")}
-    for a in acc:
-        ctx.check((a.func, a.kind) in allowed, "publisher/registration-order-preserved", ctx.construct("twisted.logger._observer." + a.func, a.node),
-                  f"self._observers is modified by '{a.kind}' in {a.func}: registration order / single registration is no longer an invariant")
-    ctx.floor("publisher/registration-order-preserved", len(acc), 3)
-    init = ctx.func(OBS, "LogPublisher.__init__")
-    va = init.args.vararg.arg if init.args.vararg else None
-    ia = [a for a in acc if a.func == "LogPublisher.__init__"]
-    ctx.check(bool(ia) and va is not None and src(ia[0].node.value) == f"list({va})", "publisher/registration-order-preserved", QO + "__init__ | initial list",
-              "the initial observer list is not list(observers)")
-    add = ctx.func(OBS, "LogPublisher.addObserver")
-    ga = ctx.cfg(add)
-    op = add.args.args[1].arg
-    for n in ga.find(lambda x: isinstance(x, ast.Call) and isinstance(x.func, ast.Attribute) and x.func.attr == "append" and _is_self_attr(x.func.value, "_observers")):
-        c = next(x for x in walk_local(ga.node(n).ast) if isinstance(x, ast.Call) and getattr(x.func, "attr", "") == "append")
-        ctx.check(len(c.args) == 1 and src(c.args[0]) == op, "publisher/registration-order-preserved", ctx.construct(QO + "addObserver", c), "something else than the observer is registered")
-        ctx.check(ga.guarded(n, lambda t: src(t) == f"{op} in self._observers", False) or ga.guarded(n, lambda t: src(t) == f"{op} not in self._observers", True),
-                  "publisher/single-registration", ctx.construct(QO + "addObserver", c),
-                  "an observer can be registered twice and would then receive every event twice")
+    def observed(root_event):
+        out = []
+        for o, ev in journal:
+            if ev is root_event:
+                out.append((o.name, "event"))
+            else:
+                f = ev.get("log_failure") if isinstance(ev, dict) else None
+                about = ev.get("observer") if isinstance(ev, dict) else None
+                ok = isinstance(f, _FailureModel) and isinstance(f.value, _Boom) and isinstance(about, _Rec) and f.value.args == (about.name,) \
+                    and ev.get("log_format") == disabled
+                out.append((o.name, ("failure of", about.name) if ok else ("unexpected event", repr(ev)[:80])))
+        return out
+
+    def clone(p):
+        p2 = copy.copy(p)
+        object.__setattr__(p2, "attrs", {k: (list(v) if isinstance(v, list) else v) for k, v in p.attrs.items()})
+        return p2
+
+    def attempt(fn):
+        try:
+            fn()
+            return None
+        except Nonterminating:
+            return "does not terminate"
+        except AnalysisError:
+            raise
+        except BaseException as e:
+            return f"raises {type(e).__name__}({e})"
+    problems = {}
+    per_list = {}
+
+    def note(kind, hist, text):
+        problems.setdefault(kind, (hist, text))
+        if kind in ("delivery", "failure-reports"):
+            per_list.setdefault((kind, cur[0]), (hist, text))
+    cur = [()]
+    start = it.globals["LogPublisher"]()
+    seen = set()
+    lists_seen = set()
+    frontier = [(start, (), ())]
+    n_states = 0
+    for depth in range(0, 5):
+        nxt = []
+        for pub, listed, hist in frontier:
+            key = (tuple(o.name for o in listed), freeze({k: v for k, v in pub.attrs.items() if k != "log"}))
+            if key in seen:
+                continue
+            seen.add(key)
+            n_states += 1
+            cur[0] = tuple(o.name for o in listed)
+            lists_seen.add(cur[0])
+            # publish a plain event and a traced one
+            for traced in (False, True):
+                ev = {"n": 1, "log_trace": []} if traced else {"n": 1}
+                del journal[:]
+                p2 = clone(pub)
+                err = attempt(lambda: it.getattr_(p2, "__call__")(ev))
+                want = []
+                spec(list(listed), "event", want)
+                got = observed(ev)
+                if err is not None:
+                    note("delivery", hist, f"publishing an event {err}")
+                elif [g for g in got if g[1] == "event"] != [w for w in want if w[1] == "event"]:
+                    note("delivery", hist, f"observers {[o.name for o in listed]} received the event as {[g[0] for g in got if g[1] == 'event']}: every observer must get it exactly "
+                                           "once, in registration order, whether or not others raise")
+                elif got != want:
+                    note("failure-reports", hist, f"deliveries {got} differ from {want}: each failure must be reported, after the event reached everyone, to every other observer")
+                if traced and err is None:
+                    tr = ev["log_trace"]
+                    ok = len(tr) == len(listed) and all(isinstance(x, tuple) and len(x) == 2 and x[0] is p2 and x[1] is o for x, o in zip(tr, listed))
+                    if not ok:
+                        note("trace", hist, f"log_trace records {[(repr(x[1]) if isinstance(x, tuple) and len(x) == 2 else x) for x in tr]} for observers {[o.name for o in listed]}")
+            if depth == 4:
+                continue
+            for name, o in obs.items():
+                p2 = clone(pub)
+                err = attempt(lambda: it.getattr_(p2, "addObserver")(o))
+                if err is not None:
+                    note("registration", hist + (f"add {name}",), f"addObserver {err}")
+                else:
+                    nxt.append((p2, listed if o in listed else listed + (o,), hist + (f"add {o.name}",)))
+                p3 = clone(pub)
+                err = attempt(lambda: it.getattr_(p3, "removeObserver")(o))
+                if err is not None:
+                    note("registration", hist + (f"remove {name}",), f"removeObserver {err}")
+                else:
+                    nxt.append((p3, tuple(x for x in listed if x is not o), hist + (f"remove {o.name}",)))
+        frontier = nxt
+    # a publisher constructed with observers
+    del journal[:]
+    p0 = it.globals["LogPublisher"](obs["C"], obs["A"])
+    ev = {"n": 2}
+    err = attempt(lambda: it.getattr_(p0, "__call__")(ev))
+    if err is not None or observed(ev) != [("C", "event"), ("A", "event")]:
+        note("registration", ("LogPublisher(C, A)",), f"constructor observers are not served in the order given ({err or observed(ev)})")
+    err = attempt(lambda: it.getattr_(p0, "addObserver")(5))
+    if err is None or "TypeError" not in err:
+        note("registration", ("addObserver(5)",), "a non-callable observer is accepted")
+    labels = {"delivery": ("publisher/delivery", "every observer receives each event exactly once in registration order, even when others raise"),
+              "failure-reports": ("publisher/failure-reports", "failures are reported after the fan-out to every other observer"),
+              "registration": ("publisher/registration", "addObserver appends once, removeObserver removes, order is kept"),
+              "trace": ("publisher/trace", "log_trace records (publisher, observer) per delivery")}
+    for kind, (rule, what) in labels.items():
+        if kind in ("delivery", "failure-reports"):
+            for names in sorted(lists_seen):
+                b = per_list.get((kind, names))
+                ctx.check(b is None, rule, f"{q} | observers registered: [{', '.join(names)}]", (f"after [{' ; '.join(b[0])}]: {b[1]}" if b else ""), detail=what)
+            continue
+        b = problems.get(kind)
+        ctx.check(b is None, rule, f"{q} | {what}", (f"after [{' ; '.join(b[0])}]: {b[1]}" if b else ""), detail=f"{n_states} publisher states explored")
+    # the same journal discrimination per operation for mutant naming is not needed: the history is the witness
+    ctx.extra["publisher_states_explored"] = n_states
+
+
+def check_filtering(ctx):
+    """shouldLogEvent and FilteringLogObserver interpreted over all predicate-result sequences of length <= 3."""
+    import functools
+    import itertools
+    import types
+    mod = ctx.mod(FIL)
+    it = Interp({}, budget=2000000)
+    it.load(mod)
+    res = types.SimpleNamespace(yes="yes", no="no", maybe="maybe")
+    it.globals.update({"PredicateResult": res, "partial": functools.partial, "implementer": lambda *a: (lambda x: x),
+                       "LogLevel": types.SimpleNamespace(info=1), "bitbucketLogObserver": lambda event: None})
+    ctx.func(FIL, "shouldLogEvent")
+    ctx.func(FIL, "FilteringLogObserver.__call__")
+    qs = QF + "shouldLogEvent"
+    qo = QF + "FilteringLogObserver"
+    bad_s = bad_o = bad_t = None
+    n = 0
+    for k in range(0, 4):
+        for seq in itertools.product(("yes", "no", "maybe"), repeat=k):
+            asked = []
+            preds = [(lambda ev, r=r, i=i: (asked.append(i), r)[1]) for i, r in enumerate(seq)]
+            decisive = next((i for i, r in enumerate(seq) if r != "maybe"), None)
+            want = True if decisive is None else seq[decisive] == "yes"
+            want_asked = list(range(len(seq) if decisive is None else decisive + 1))
+            event = {"n": 1}
+            try:
+                got = it.globals["shouldLogEvent"](preds, event)
+            except Exception as e:
+                got = f"raises {type(e).__name__}"
+            n += 1
+            if (got is not want or asked != want_asked) and bad_s is None:
+                bad_s = (seq, got, asked)
+            journal = []
+            pos, neg = _Rec("wrapped", journal), _Rec("negative", journal)
+            for traced in (False, True):
+                del journal[:]
+                del asked[:]
+                ev = {"n": 2, "log_trace": []} if traced else {"n": 2}
+                try:
+                    flt = it.globals["FilteringLogObserver"](pos, preds, neg)
+                    it.getattr_(flt, "__call__")(ev)
+                    got2 = [(o.name, e is ev) for o, e in journal]
+                except Exception as e:
+                    got2 = f"raises {type(e).__name__}: {e}"
+                    flt = None
+                if got2 != [("wrapped" if want else "negative", True)] and bad_o is None:
+                    bad_o = (seq, got2)
+                if traced and flt is not None and want and bad_t is None:
+                    tr = ev["log_trace"]
+                    if not (len(tr) == 1 and tr[0][0] is flt and tr[0][1] is pos):
+                        bad_t = (seq, tr)
+    try:
+        it.globals["shouldLogEvent"]([lambda ev: "bogus"], {})
+        invalid = "accepted"
+    except TypeError:
+        invalid = None
+    except Exception as e:
+        invalid = f"raises {type(e).__name__}"
+    ctx.check(bad_s is None, "filter/predicate-verdicts", qs,
+              (f"predicate results {bad_s[0]} give {bad_s[1]!r} after asking predicates {bad_s[2]}: the first yes/no decides, only maybe consults the next, none means log" if bad_s else ""),
+              detail=f"{n} result sequences")
+    ctx.check(invalid is None, "filter/predicate-verdicts", qs + " | invalid result", f"a result that is not a PredicateResult is {invalid} instead of raising TypeError")
+    ctx.check(bad_o is None, "filter/forwards-iff-should-log", qo + ".__call__",
+              (f"with predicate results {bad_o[0]} the event goes to {bad_o[1]}: the wrapped observer gets it exactly when shouldLogEvent says so, otherwise the negative observer" if bad_o else ""))
+    ctx.check(bad_t is None, "filter/forwards-iff-should-log", qo + ".__call__ | log_trace",
+              (f"log_trace after forwarding is {bad_t[1]}" if bad_t else ""))
+
+
+def check_buffer(ctx):
+    """LimitedHistoryLogObserver interpreted: after each of 6 events, two replays must each yield the last N in order."""
+    import collections
+    mod = ctx.mod(BUF)
+    it = Interp({}, budget=1000000)
+    it.load(mod)
+    it.globals.update({"deque": collections.deque, "implementer": lambda *a: (lambda x: x)})
+    ctx.func(BUF, "LimitedHistoryLogObserver.replayTo")
+    q = "twisted.logger._buffer.LimitedHistoryLogObserver"
+    bad = None
+    for size in (1, 2, 3, None, "default"):
+        try:
+            h = it.globals["LimitedHistoryLogObserver"]() if size == "default" else it.globals["LimitedHistoryLogObserver"](size)
+        except Exception as e:
+            bad = bad or (size, 0, f"constructor raises {type(e).__name__}: {e}", "")
+            continue
+        events = []
+        for i in range(1, 7):
+            ev = {"n": i}
+            events.append(ev)
+            try:
+                it.getattr_(h, "__call__")(ev)
+                want = events if size in (None, "default") else events[-size:]
+                for attempt in (1, 2):
+                    got = []
+                    it.getattr_(h, "replayTo")(got.append)
+                    if not (len(got) == len(want) and all(a is b for a, b in zip(got, want))) and bad is None:
+                        bad = (size, i, [g.get("n") if isinstance(g, dict) else g for g in got], f"replay #{attempt}, expected {[w['n'] for w in want]}")
+            except Nonterminating:
+                bad = bad or (size, i, "does not terminate", "")
+            except Exception as e:
+                bad = bad or (size, i, f"raises {type(e).__name__}: {e}", "")
+    ctx.check(bad is None, "history/last-n-in-order", q,
+              (f"LimitedHistoryLogObserver({bad[0]}) after {bad[1]} events replays {bad[2]} ({bad[3]}): every replay must yield exactly the last N events, oldest first" if bad else ""),
+              detail="sizes 1, 2, 3, None, default x 6 events x 2 replays")
+    d = it.globals.get("_DEFAULT_BUFFER_MAXIMUM")
+    ctx.check(isinstance(d, int) and d >= 1, "history/last-n-in-order", q + " | default size", f"default buffer size is {d!r}")
 
 
 def _freeze_obj(o):
@@ -288,145 +437,13 @@ def check_filter_histories(ctx):
     ctx.extra["filter_evaluations"] = n_eval
 
 
-def check_filter(ctx):
-    cls = ctx.cls(FIL, "LogLevelFilterPredicate")
-    mod = ctx.mod(FIL)
-    # table writers
-    acc = class_accesses(mod, cls, {"_logLevelsByNamespace"}, receivers={"self"})
-    for a in acc:
-        where = a.func.split(".")[-1]
-        k = ctx.construct(QF + a.func, a.node)
-        if a.kind == "setitem" and where == "setLogLevelForNamespace":
-            s = ctx.func(FIL, "LogLevelFilterPredicate.setLogLevelForNamespace")
-            pn, pl = s.args.args[1].arg, s.args.args[2].arg
-            key = a.node.targets[0].slice
-            okk = src(key) == pn or (isinstance(key, ast.Constant) and key.value == "")
-            ctx.check(okk and src(a.node.value) == pl, "filter/table-written-under-namespace", k, "the level is stored under a different key / with a different value than given")
-        elif a.kind == "setitem" and where == "clearLogLevels":
-            key = a.node.targets[0].slice
-            ctx.check(isinstance(key, ast.Constant) and key.value == "" and src(a.node.value) == "self.defaultLogLevel", "filter/table-written-under-namespace", k,
-                      "clearLogLevels does not restore the default level under the '' key")
-        elif a.kind == "clear" and where == "clearLogLevels":
-            ctx.ok("filter/table-written-under-namespace", k)
-        elif where == "__init__" and a.kind in ("assign", "rebind-empty"):
-            ctx.ok("filter/table-written-under-namespace", k)
-        else:
-            ctx.violation("filter/table-written-under-namespace", k, f"unexpected '{a.kind}' of the namespace table in {a.func}")
-    ctx.floor("filter/table-written-under-namespace", len(acc), 4)
-    s = ctx.func(FIL, "LogLevelFilterPredicate.setLogLevelForNamespace")
-    gs = ctx.cfg(s)
-    pn = s.args.args[1].arg
-    for n in gs.ids(lambda n: n.kind == "stmt" and isinstance(n.ast, ast.Assign) and isinstance(n.ast.targets[0], ast.Subscript)):
-        key = gs.node(n).ast.targets[0].slice
-        if src(key) == pn:
-            continue
-        ctx.check(gs.guarded(n, lambda t: src(t) == pn, False), "filter/table-written-under-namespace", ctx.construct(QF + "LogLevelFilterPredicate.setLogLevelForNamespace", gs.node(n).ast) + " | only for ''",
-                  "a non-empty namespace is stored under the default key")
-
-    # shouldLogEvent + FilteringLogObserver
-    sh = ctx.func(FIL, "shouldLogEvent")
-    g2 = ctx.cfg(sh)
-    qs = QF + "shouldLogEvent"
-    loops = [n for n in walk_local(sh) if isinstance(n, ast.For)]
-    ctx.need(len(loops) == 1, "predicate loop of shouldLogEvent")
-    lp = loops[0]
-    head = g2.ids_of(lp)[0]
-
-    def guard_eq(n, const, pol):
-        return g2.guarded(n, lambda t: isinstance(t, ast.Compare) and len(t.ops) == 1 and isinstance(t.ops[0], (ast.Eq, ast.Is))
-                          and (dotted(t.comparators[0]) or dotted(t.left) or "").endswith("PredicateResult." + const), pol)
-    for r in g2.ids(lambda n: n.kind == "stmt" and isinstance(n.ast, ast.Return)):
-        node = g2.node(r).ast
-        inside = any(x is node for x in ast.walk(lp))
-        v = node.value.value if isinstance(node.value, ast.Constant) else None
-        if inside:
-            ctx.check((v is True and guard_eq(r, "yes", True)) or (v is False and guard_eq(r, "no", True)), "filter/predicate-verdicts", ctx.construct(qs, node),
-                      "a predicate verdict is mapped to the wrong decision (yes must log, no must drop)")
-        else:
-            ctx.check(v is True, "filter/predicate-verdicts", ctx.construct(qs, node) + " | default", "with only `maybe` answers the event must be logged")
-    conts = g2.ids(lambda n: n.kind == "stmt" and isinstance(n.ast, ast.Continue))
-    for cn in conts:
-        ctx.check(guard_eq(cn, "maybe", True), "filter/predicate-verdicts", ctx.construct(qs, g2.node(cn).ast), "the next predicate is consulted after a verdict other than maybe")
-    pc = [c for c in ast.walk(lp) if isinstance(c, ast.Call) and isinstance(c.func, ast.Name) and isinstance(lp.target, ast.Name) and c.func.id == lp.target.id]
-    ctx.check(len(pc) == 1 and len(pc[0].args) == 1 and src(pc[0].args[0]) == sh.args.args[1].arg, "filter/predicate-verdicts", qs + " | predicate(event)",
-              "each predicate is not asked exactly once about the event")
-
-    fo = ctx.func(FIL, "FilteringLogObserver.__call__")
-    g3 = ctx.cfg(fo)
-    qo = QF + "FilteringLogObserver.__call__"
-    e3 = fo.args.args[1].arg
-
-    def is_should(t):
-        return isinstance(t, ast.Call) and call_name(t) == "self._shouldLogEvent" and len(t.args) == 1 and src(t.args[0]) == e3
-    pos = g3.find(lambda x: isinstance(x, ast.Call) and call_name(x) == "self._observer")
-    neg = g3.find(lambda x: isinstance(x, ast.Call) and call_name(x) == "self._negativeObserver")
-    ctx.check(bool(pos) and all(g3.guarded(n, is_should, True) for n in pos), "filter/forwards-iff-should-log", qo + " | self._observer(event)",
-              "the wrapped observer is not called exactly under shouldLogEvent(event)")
-    ctx.check(bool(neg) and all(g3.guarded(n, is_should, False) for n in neg), "filter/forwards-iff-should-log", qo + " | self._negativeObserver(event)",
-              "the negative observer is not called exactly when shouldLogEvent(event) is false")
-    w = g3.must_pass([g3.entry], set(pos) | set(neg), exc=False)
-    ctx.check(w is None, "filter/forwards-iff-should-log", qo + " | every event routed", "an event can be routed to neither observer", witness=g3.describe(w))
-    ini = ctx.func(FIL, "FilteringLogObserver.__init__")
-    part = [c for c in ast.walk(ini) if isinstance(c, ast.Call) and call_name(c) == "partial"]
-    ctx.check(len(part) == 1 and len(part[0].args) == 2 and src(part[0].args[0]) == "shouldLogEvent" and ini.args.args[2].arg in src(part[0].args[1]),
-              "filter/forwards-iff-should-log", QF + "FilteringLogObserver.__init__ | partial(shouldLogEvent, ...)", "the decision function is not shouldLogEvent over the given predicates")
-
-
-def check_buffer(ctx):
-    mod = ctx.mod(BUF)
-    cls = ctx.cls(BUF, "LimitedHistoryLogObserver")
-    acc = class_accesses(mod, cls, {"_buffer"}, receivers={"self"})
-    init = ctx.func(BUF, "LimitedHistoryLogObserver.__init__")
-    size = init.args.args[1].arg
-    for a in acc:
-        k = ctx.construct("twisted.logger._buffer." + a.func, a.node)
-        if a.func.endswith("__init__") and a.kind in ("assign", "rebind-empty"):
-            v = a.node.value
-            kws = {x.arg: x.value for x in v.keywords} if isinstance(v, ast.Call) else {}
-            ok = isinstance(v, ast.Call) and call_name(v) in ("deque", "collections.deque") and \
-                ((not v.args and "maxlen" in kws and src(kws["maxlen"]) == size) or (len(v.args) == 2 and src(v.args[1]) == size and isinstance(v.args[0], (ast.List, ast.Tuple)) and not v.args[0].elts))
-            ctx.check(ok, "history/bounded-by-size", k, "the history is not an (initially empty) deque bounded by exactly `size`: more or fewer than the last N events are kept")
-        elif a.func.endswith("__call__") and a.kind == "append":
-            c = ctx.func(BUF, "LimitedHistoryLogObserver.__call__")
-            ctx.check(len(a.node.args) == 1 and src(a.node.args[0]) == c.args.args[1].arg, "history/appends-at-the-end", k, "something else than the event is recorded")
-        else:
-            ctx.violation("history/appends-at-the-end", k, f"the history buffer is modified by '{a.kind}' in {a.func}: it no longer holds the last N events oldest-first")
-    ctx.floor("history/writers", len(acc), 2)
-    c = ctx.func(BUF, "LimitedHistoryLogObserver.__call__")
-    g = ctx.cfg(c)
-    app = g.find(lambda x: isinstance(x, ast.Call) and isinstance(x.func, ast.Attribute) and x.func.attr == "append" and _is_self_attr(x.func.value, "_buffer"))
-    w = g.must_pass([g.entry], app, exc=False)
-    ctx.check(bool(app) and w is None, "history/appends-at-the-end", QB + "__call__", "an event can be dropped without being recorded", witness=g.describe(w))
-    r = ctx.func(BUF, "LimitedHistoryLogObserver.replayTo")
-    gr = ctx.cfg(r)
-    qr = QB + "replayTo"
-    other = r.args.args[1].arg
-    loops = [n for n in walk_local(r) if isinstance(n, ast.For)]
-    ok = len(loops) == 1 and _is_self_attr(loops[0].iter, "_buffer") and isinstance(loops[0].target, ast.Name)
-    ctx.check(ok, "history/replays-forward", qr, "replay does not walk the buffer itself front (oldest) to back (newest)")
-    if ok:
-        lp = loops[0]
-        calls = [x for x in ast.walk(lp) if isinstance(x, ast.Call) and isinstance(x.func, ast.Name) and x.func.id == other]
-        ctx.check(len(calls) == 1 and len(calls[0].args) == 1 and src(calls[0].args[0]) == lp.target.id, "history/replays-each-once", qr + " | otherObserver(event)",
-                  "each buffered event is not passed exactly once to the other observer")
-        if len(calls) == 1:
-            head = gr.ids_of(lp)[0]
-            cid = gr.ids_of(calls[0])
-            st = [d for d, l in gr.succ[head] if l == "iter"]
-            p = gr.path([s for s in st if s not in cid], [head, gr.exit], avoid=cid, edge_ok=_no_exc)
-            ctx.check(p is None, "history/replays-each-once", qr + " | every event", "a buffered event can be skipped", witness=gr.describe(p))
-            body = [n.id for n in gr.nodes if n.ast is not None and n.kind in ("stmt", "test") and any(n.ast is x for x in ast.walk(lp)) and gr.reachable(n.id)]
-            p = gr.path(body, [gr.exit] + [d for d, l in gr.succ[head] if l == "done"], avoid=[head], edge_ok=_no_exc)
-            ctx.check(p is None, "history/replays-each-once", qr + " | runs to completion", "the replay can stop early", witness=gr.describe(p))
-
-
 def check(ctx):
     with ctx.section("LogPublisher"):
         check_publisher(ctx)
     with ctx.section("LogLevelFilterPredicate histories"):
         check_filter_histories(ctx)
-    with ctx.section("filter structure"):
-        check_filter(ctx)
+    with ctx.section("shouldLogEvent / FilteringLogObserver"):
+        check_filtering(ctx)
     with ctx.section("LimitedHistoryLogObserver"):
         check_buffer(ctx)
 
@@ -449,21 +466,21 @@ _E_SET_FLUSH = "        self._memo.clear()\n" + _E_SET_OLD
 
 MUTANTS = [
     Mutant("observer-call-outside-try", OBS, "            try:\n                observer(event)\n            except Exception:\n                brokenObservers.append((observer, Failure()))\n",
-           "            observer(event)\n", expect_rule="publisher/observer-failure-contained"),
+           "            observer(event)\n", expect_rule="publisher/delivery"),
     Mutant("handler-narrowed-to-valueerror", OBS, "            except Exception:\n                brokenObservers.append", "            except ValueError:\n                brokenObservers.append",
-           expect_rule="publisher/observer-failure-contained"),
+           expect_rule="publisher/delivery"),
     Mutant("reversed-iteration", OBS, "        for observer in self._observers:\n            if trace", "        for observer in reversed(self._observers):\n            if trace",
-           expect_rule="publisher/forward-iteration"),
-    Mutant("report-to-the-broken-observer", OBS, "if obs is not observer)", "if obs is observer)", expect_rule="publisher/report-excludes-broken-observer"),
+           expect_rule="publisher/delivery"),
+    Mutant("report-to-the-broken-observer", OBS, "if obs is not observer)", "if obs is observer)", expect_rule="publisher/"),
     Mutant("report-inside-loop", OBS, "                brokenObservers.append((observer, Failure()))\n\n        for brokenObserver, failure in brokenObservers:\n            errorLogger = self._errorLoggerForObserver(brokenObserver)\n            errorLogger.failure(\n                OBSERVER_DISABLED,\n                failure=failure,\n                observer=brokenObserver,\n            )\n",
            "                brokenObservers.append((observer, Failure()))\n\n            for brokenObserver, failure in brokenObservers:\n                errorLogger = self._errorLoggerForObserver(brokenObserver)\n                errorLogger.failure(\n                    OBSERVER_DISABLED,\n                    failure=failure,\n                    observer=brokenObserver,\n                )\n            del brokenObservers[:]\n",
-           expect_rule="publisher/failures-reported-after-loop"),
+           expect_rule="publisher/failure-reports"),
     Mutant("stop-after-first-failure", OBS, "                brokenObservers.append((observer, Failure()))\n\n        for brokenObserver", "                brokenObservers.append((observer, Failure()))\n                break\n\n        for brokenObserver",
-           expect_rule="publisher/loop-runs-to-completion"),
-    Mutant("add-observer-at-front", OBS, "            self._observers.append(observer)", "            self._observers.insert(0, observer)", expect_rule="publisher/registration-order-preserved"),
+           expect_rule="publisher/"),
+    Mutant("add-observer-at-front", OBS, "            self._observers.append(observer)", "            self._observers.insert(0, observer)", expect_rule="publisher/"),
     Mutant("add-observer-without-dedupe", OBS, "        if observer not in self._observers:\n            self._observers.append(observer)", "        self._observers.append(observer)",
-           expect_rule="publisher/single-registration"),
-    Mutant("failure-not-recorded", OBS, "                brokenObservers.append((observer, Failure()))\n", "                pass\n", expect_rule="publisher/failure-recorded"),
+           expect_rule="publisher/"),
+    Mutant("failure-not-recorded", OBS, "                brokenObservers.append((observer, Failure()))\n", "                pass\n", expect_rule="publisher/failure-reports"),
     Mutant("filter-le", FIL, "        if eventLevel < namespaceLevel:", "        if eventLevel <= namespaceLevel:", expect_rule="filter/level-decision"),
     Mutant("filter-operands-swapped", FIL, "        if eventLevel < namespaceLevel:", "        if namespaceLevel < eventLevel:", expect_rule="filter/level-decision"),
     Mutant("prefix-loop-counts-up", FIL, "        index = len(segments) - 1\n\n        while index > 0:\n            namespace = \".\".join(segments[:index])\n            if namespace in self._logLevelsByNamespace:\n                return self._logLevelsByNamespace[namespace]\n            index -= 1\n",
@@ -483,10 +500,10 @@ MUTANTS = [
            expect_rule="history/"),
     Mutant("remove-observer-swaps-with-last", OBS, "        try:\n            self._observers.remove(observer)\n        except ValueError:\n            pass\n",
            "        try:\n            i = self._observers.index(observer)\n        except ValueError:\n            return\n        self._observers[i] = self._observers[-1]\n        del self._observers[-1]\n",
-           expect_rule="publisher/registration-order-preserved"),
-    Mutant("history-appendleft", BUF, "        self._buffer.append(event)", "        self._buffer.appendleft(event)", expect_rule="history/appends-at-the-end"),
-    Mutant("history-replay-reversed", BUF, "        for event in self._buffer:", "        for event in reversed(self._buffer):", expect_rule="history/replays-forward"),
-    Mutant("history-maxlen-off-by-one", BUF, "deque(maxlen=size)", "deque(maxlen=size and size - 1)", expect_rule="history/bounded-by-size"),
+           expect_rule="publisher/"),
+    Mutant("history-appendleft", BUF, "        self._buffer.append(event)", "        self._buffer.appendleft(event)", expect_rule="history/"),
+    Mutant("history-replay-reversed", BUF, "        for event in self._buffer:", "        for event in reversed(self._buffer):", expect_rule="history/"),
+    Mutant("history-maxlen-off-by-one", BUF, "deque(maxlen=size)", "deque(maxlen=size and size - 1)", expect_rule="history/"),
 ]
 SILENT = [
     Silent("filter-comparison-rewritten", FIL, "        if eventLevel < namespaceLevel:\n            return PredicateResult.no\n\n        return PredicateResult.maybe",
@@ -501,5 +518,11 @@ SILENT = [
            "        return PredicateResult.no if eventLevel < namespaceLevel else PredicateResult.maybe"),
     Silent("remove-observer-tests-membership", OBS, "        try:\n            self._observers.remove(observer)\n        except ValueError:\n            pass\n",
            "        if observer in self._observers:\n            self._observers.remove(observer)\n"),
+    Silent("failure-reporting-in-private-method", OBS, "        for brokenObserver, failure in brokenObservers:\n            errorLogger = self._errorLoggerForObserver(brokenObserver)\n            errorLogger.failure(\n                OBSERVER_DISABLED,\n                failure=failure,\n                observer=brokenObserver,\n            )\n",
+           "        self._tellOthers(brokenObservers)\n\n    def _tellOthers(self, broken):\n        for culprit, why in broken:\n            self._errorLoggerForObserver(culprit).failure(OBSERVER_DISABLED, failure=why, observer=culprit)\n"),
+    Silent("error-publisher-built-by-explicit-loop", OBS, "        errorPublisher = LogPublisher(\n            *(obs for obs in self._observers if obs is not observer)\n        )\n",
+           "        others = []\n        for each in self._observers:\n            if each is observer:\n                continue\n            others.append(each)\n        errorPublisher = LogPublisher(*others)\n"),
+    Silent("replay-through-module-helper", BUF, "        for event in self._buffer:\n            otherObserver(event)", "        _each(self._buffer, otherObserver)\n\n\ndef _each(items, sink):\n    for item in items:\n        sink(item)"),
+    Silent("level-stored-under-computed-key", FIL, _E_SET_OLD, "        where = namespace or \"\"\n        self._logLevelsByNamespace[where] = level\n"),
     Silent("history-positional-deque", BUF, "deque(maxlen=size)", "deque([], size)"),
 ]
